@@ -1466,7 +1466,8 @@ func diffSem(real, spec []string) (string, string, string) {
 	return "", "", ""
 }
 
-// sparsifyIDs rewrites function and location ids to a sparse, non-dense (sometimes huge) id space.
+// sparsifyIDs rewrites function and location ids to a sparse, non-dense (sometimes huge) id space,
+// half of the time with tables that are NOT sorted by id.
 func sparsifyIDs(r *Rng, p *profile.Profile) {
 	base := uint64(0)
 	if r.Chance(25) {
@@ -1484,6 +1485,20 @@ func sparsifyIDs(r *Rng, p *profile.Profile) {
 	for _, l := range p.Location {
 		id += 1 + uint64(r.Intn(3))
 		l.ID = id
+	}
+	// tables need not be sorted by id: permute the ids among the entries (the largest id is then
+	// usually not the last entry's)
+	if r.Chance(50) {
+		for i := len(p.Location) - 1; i > 0; i-- {
+			j := r.Intn(i + 1)
+			p.Location[i].ID, p.Location[j].ID = p.Location[j].ID, p.Location[i].ID
+		}
+	}
+	if r.Chance(50) {
+		for i := len(p.Function) - 1; i > 0; i-- {
+			j := r.Intn(i + 1)
+			p.Function[i].ID, p.Function[j].ID = p.Function[j].ID, p.Function[i].ID
+		}
 	}
 }
 
@@ -1792,10 +1807,12 @@ type unitDef struct {
 }
 
 var gridUnits = []unitDef{
-	{"bytes", "b", 1, 0}, {"kb", "kb", 1 << 10, 0}, {"mb", "MB", 1 << 20, 0},
-	{"ns", "ns", 1, 1}, {"us", "us", 1000, 1}, {"ms", "ms", 1000000, 1}, {"s", "s", 1000000000, 1},
+	{"bytes", "b", 1, 0}, {"kb", "kb", 1 << 10, 0}, {"mb", "MB", 1 << 20, 0}, {"gb", "GB", 1 << 30, 0},
+	{"ns", "ns", 1, 1}, {"us", "us", 1000, 1}, {"ms", "ms", 1000000, 1}, {"s", "s", 1000000000, 1}, {"hr", "hr", 3600000000000, 1},
 	{"", "", 1, 2}, {"foo", "foo", 1, 2},
 }
+
+const gridRealUnits = 9 // the entries of gridUnits before the unit-less / unknown ones
 
 // genUnitGrid builds a profile whose samples carry one numeric label each (key "q", unit of the
 // chosen label unit; a second key "z" without unit on some samples) with values AT, just BELOW,
@@ -1804,9 +1821,9 @@ var gridUnits = []unitDef{
 // multiples (or neighbours) written in the filter unit. Unit pairs: same, filter finer, filter
 // coarser, unknown / none, cross-family.
 func genUnitGrid(r *Rng) (*profile.Profile, string, string) {
-	lu := gridUnits[r.Intn(7)]
+	lu := gridUnits[r.Intn(gridRealUnits)]
 	if r.Chance(15) {
-		lu = gridUnits[7+r.Intn(2)] // label without unit / with an unknown unit
+		lu = gridUnits[gridRealUnits+r.Intn(2)] // label without unit / with an unknown unit
 	}
 	var fu unitDef
 	pair := ""
@@ -1833,9 +1850,9 @@ func genUnitGrid(r *Rng) (*profile.Profile, string, string) {
 			}
 		}
 	case 4:
-		fu, pair = gridUnits[7+r.Intn(2)], "filter-unit-none-or-unknown"
+		fu, pair = gridUnits[gridRealUnits+r.Intn(2)], "filter-unit-none-or-unknown"
 	default:
-		fu = gridUnits[r.Intn(7)]
+		fu = gridUnits[r.Intn(gridRealUnits)]
 		pair = "cross-family-or-random"
 		if fu.family == lu.family {
 			pair = "same-family-random"
@@ -1859,7 +1876,18 @@ func genUnitGrid(r *Rng) (*profile.Profile, string, string) {
 	}
 	m := int64(r.Intn(6)) - 2 // base multiple, also negative and zero
 	var vals []int64
-	if num >= den { // filter coarser or equal: label values around multiples of `step`
+	exact := num > den && r.Chance(60)
+	if exact {
+		// EXACT multiples k·unit of the coarser filter unit, k = 1..64: converting them must give the
+		// exact number k (the filter compares with ==, >=, <=), whatever the size of the unit ratio
+		m = 1 + int64(r.Intn(64))
+		pair += "-exact-multiples"
+		vals = []int64{m * step, (m - 1) * step, (m + 1) * step, (m + 2) * step}
+		for k := 0; k < 5; k++ {
+			vals = append(vals, (1+int64(r.Intn(64)))*step)
+		}
+		vals = append(vals, m*step+1, m*step-1)
+	} else if num >= den { // filter coarser or equal: label values around multiples of `step`
 		b := toLabel(m)
 		vals = []int64{b, b - 1, b + 1, b + step/2, b + step - 1, b + step, b - step, b + 2*step, b - step/2}
 	} else { // filter finer: label values m, m±1; the filter bounds get the fractions
@@ -1897,7 +1925,12 @@ func genUnitGrid(r *Rng) (*profile.Profile, string, string) {
 		return x
 	}
 	a, b := fb(), fb()
-	if r.Chance(50) {
+	if exact { // bounds exactly on label values
+		a, b = m, m+int64(r.Intn(3))
+		if r.Chance(30) {
+			a, b = m-1, m
+		}
+	} else if r.Chance(50) {
 		a = m
 		if num < den {
 			a = m * fstep
@@ -1925,7 +1958,7 @@ func genUnitGrid(r *Rng) (*profile.Profile, string, string) {
 		u2 := fu.filter
 		if r.Chance(30) && fu.family != 2 { // second bound in another unit of the family
 			for _, u := range gridUnits {
-				if u.family == fu.family && r.Chance(40) {
+				if u.family == fu.family && u.factor <= fu.factor && r.Chance(40) {
 					b = b * fu.factor / u.factor
 					u2 = u.filter
 					break
